@@ -414,6 +414,8 @@ where
                 }
 
                 // Otherwise further checking is applicable.
+                #[cfg(getong_stateright_verif)]
+                crate::verif_hooks::yield_point("on_demand.after_arbitration");
                 is_terminal = false;
                 pending.push_front((
                     next_state,
